@@ -98,6 +98,13 @@ func c13Component(r *vfw.Run) {
 		return []byte(fmt.Sprintf("v%d", uniq))
 	}
 	var log []string
+	type batchOp struct {
+		k   string
+		v   []byte
+		del bool
+	}
+	var pending dbm.Batch
+	var pendingOps []batchOp
 	for i := 0; i < nops; i++ {
 		k := alphabet[t.Choose("c13.key", len(alphabet))]
 		switch t.Choose("c13.op", 8) {
@@ -135,32 +142,52 @@ func c13Component(r *vfw.Run) {
 			delete(ref.m, k)
 			log = append(log, fmt.Sprintf("del %s", k))
 		case 4:
-			b := db.NewBatch()
-			nb := 1 + t.Choose("c13.batchn", 4)
-			desc := "batch["
-			for j := 0; j < nb; j++ {
+			// batches stay open across other operations: an ordinary store shows nothing of a batch before Write,
+			// and nothing at all of a batch that is closed without Write
+			switch {
+			case pending == nil:
+				pending = db.NewBatch()
+				pendingOps = nil
+				log = append(log, "batch-open")
+				fallthrough
+			case t.Choose("c13.batchwhat", 4) < 2:
 				bk := alphabet[t.Choose("c13.key", len(alphabet))]
-				// the key buffer is reused by the caller between batch operations, as IAVL's node db does
-				buf := []byte(bk)
+				buf := []byte(bk) // (tm-db's contract: key and value are read-only for both sides after the call)
 				if t.Choose("c13.batchdel", 3) == 0 {
-					b.Delete(buf)
-					delete(ref.m, bk)
-					desc += "del " + bk + ";"
+					pending.Delete(buf)
+					pendingOps = append(pendingOps, batchOp{bk, nil, true})
+					log = append(log, "batch-del "+bk)
 				} else {
 					v := val()
-					b.Set(buf, v)
-					ref.m[bk] = v
-					desc += fmt.Sprintf("set %s=%s;", bk, v)
+					pending.Set(buf, v)
+					pendingOps = append(pendingOps, batchOp{bk, v, false})
+					log = append(log, fmt.Sprintf("batch-set %s=%s", bk, v))
 				}
-				shadowed = true
+			case t.Choose("c13.batchdiscard", 3) == 0:
+				pending.Close()
+				pending = nil
+				log = append(log, "batch-discard")
+				r.Probe("batch_discarded")
+			default:
+				if t.Choose("c13.batchsync", 2) == 0 {
+					pending.Write()
+				} else {
+					pending.WriteSync()
+				}
+				pending.Close()
+				pending = nil
+				for _, o := range pendingOps {
+					if _, in := ref.m[o.k]; in {
+						shadowed = true
+					}
+					if o.del {
+						delete(ref.m, o.k)
+					} else {
+						ref.m[o.k] = o.v
+					}
+				}
+				log = append(log, "batch-write")
 			}
-			if t.Choose("c13.batchsync", 2) == 0 {
-				b.Write()
-			} else {
-				b.WriteSync()
-			}
-			b.Close()
-			log = append(log, desc+"]")
 		default:
 			var start, end []byte
 			if s := borders[t.Choose("c13.start", len(borders))]; s != "" {
